@@ -55,6 +55,8 @@ MUTANTS = [
     ("b59", PP + "schemas.py", "        required=data.required,\n        explode=data.explode,", "        explode=data.explode,", ["C20"]),
     ("b61", PP + "__init__.py", "    schemas.add_dependencies(ref_path=ref_path, roots=roots)\n    return prop, schemas", "    return prop, schemas", ["C20", "C08"]),
     ("b62", PP + "date.py", 'imports.update({"import datetime", "from typing import cast", "from dateutil.parser import isoparse"})', 'imports.update({"from typing import cast", "from dateutil.parser import isoparse"})', ["C01"]),
+    ("b80", P + "parser/openapi.py", "modified_params = set(previously_modified_params) if previously_modified_params else set()", "modified_params = previously_modified_params or set()", ["C09"]),
+    ("b81", P + "parser/openapi.py", "            if conflicting is None:\n                used_python_names[prop.python_name] = parameter\n                continue", "            if conflicting is None:\n                continue", ["C09"]),
     ("b70", T + "helpers.jinja", """r\"\"\" {{ content | replace('\"\"\"', '\\\\"\\\\"\\\\"') }} \"\"\"""", 'r""" {{ content }} """', ["C05"]),
     ("b71", PP + "string.py", "        return Value(python_code=repr(utils.remove_string_escapes(value)), raw_value=value)", "        return Value(python_code=f'\"{utils.remove_string_escapes(value)}\"', raw_value=value)", ["C13"]),
     ("b72", P + "parser/openapi.py", '            summary=utils.remove_string_escapes(data.summary) if data.summary else "",', '            summary=data.summary or "",', ["C05"]),
